@@ -390,6 +390,64 @@ Proof.
 Qed.
 Print Assumptions capture_cells_spec.
 
+(* capture_g: descriptors of both kinds *)
+Lemma capture_g_spec : forall parent cells base descs HL HL' U', NoDup HL -> capture_g HL parent cells base descs = (HL', U') ->
+  NoDup HL' /\ (exists ext, HL' = (HL ++ ext)%list) /\ List.length U' = List.length descs /\
+  (forall j b i, nth_error descs j = Some (b, i) ->
+     if b then nth (nth j U' 0) HL' 0 = nth (base + i) cells 0 /\ nth j U' 0 < List.length HL'
+     else nth j U' 0 = nth i parent 0) /\
+  (forall c, In c HL' -> In c HL \/ exists i, In (true, i) descs /\ c = nth (base + i) cells 0).
+Proof.
+  intros parent cells base. induction descs as [|[b i] r IH]; intros HL HL' U' Hnd H; cbn [capture_g] in H.
+  - injection H as <- <-. split; [exact Hnd|]. split; [exists []; now rewrite app_nil_r|]. split; [reflexivity|].
+    split; [intros [|j] b i Hj; discriminate|]. intros c Hc. now left.
+  - destruct b.
+    + cbv zeta in H. destruct (index_of (nth (base + i) cells 0) HL) as [h|] eqn:Ei.
+      * destruct (capture_g HL parent cells base r) as [HL1 ix] eqn:Ec. injection H as <- <-.
+        destruct (IH HL HL1 ix Hnd Ec) as (A & (ext & B) & C & D & E).
+        destruct (index_of_some _ _ _ Ei) as [Hh Hn].
+        split; [exact A|]. split; [exists ext; exact B|]. split; [cbn; now rewrite C|]. split.
+        -- intros [|j] b0 i0 Hj; cbn [nth_error nth] in *.
+           ++ injection Hj as <- <-. subst HL1. rewrite app_nth1 by exact Hh. split; [exact Hn|]. rewrite app_length. lia.
+           ++ exact (D j b0 i0 Hj).
+        -- intros x Hx. destruct (E x Hx) as [Hx'|(i0 & Hi0 & Hx')]; [now left|right; exists i0; split; [now right|exact Hx']].
+      * destruct (capture_g (HL ++ [nth (base + i) cells 0]) parent cells base r) as [HL1 ix] eqn:Ec. injection H as <- <-.
+        assert (Hnd' : NoDup (HL ++ [nth (base + i) cells 0])%list) by (apply NoDup_snoc; [exact Hnd|now apply index_of_none]).
+        destruct (IH _ HL1 ix Hnd' Ec) as (A & (ext & B) & C & D & E).
+        split; [exact A|]. split; [exists (nth (base + i) cells 0 :: ext); rewrite B, <- app_assoc; reflexivity|].
+        split; [cbn; now rewrite C|]. split.
+        -- intros [|j] b0 i0 Hj; cbn [nth_error nth] in *.
+           ++ injection Hj as <- <-. subst HL1. rewrite <- app_assoc. rewrite app_nth2 by lia. rewrite Nat.sub_diag. cbn.
+              split; [reflexivity|]. rewrite !app_length. cbn. lia.
+           ++ exact (D j b0 i0 Hj).
+        -- intros x Hx. destruct (E x Hx) as [Hx'|(i0 & Hi0 & Hx')].
+           ++ apply in_app_or in Hx'. destruct Hx' as [Hx'|[Hx'|[]]]; [now left|right; exists i; split; [now left|now symmetry]].
+           ++ right. exists i0. split; [now right|exact Hx'].
+    + destruct (capture_g HL parent cells base r) as [HL1 ix] eqn:Ec. injection H as <- <-.
+      destruct (IH HL HL1 ix Hnd Ec) as (A & (ext & B) & C & D & E).
+      split; [exact A|]. split; [exists ext; exact B|]. split; [cbn; now rewrite C|]. split.
+      * intros [|j] b0 i0 Hj; cbn [nth_error nth] in *.
+        -- injection Hj as <- <-. reflexivity.
+        -- exact (D j b0 i0 Hj).
+      * intros x Hx. destruct (E x Hx) as [Hx'|(i0 & Hi0 & Hx')]; [now left|right; exists i0; split; [now right|exact Hx']].
+Qed.
+
+Lemma capture_g_keeps : forall parent cells base descs HL HL' U' h, capture_g HL parent cells base descs = (HL', U') ->
+  h < List.length HL -> nth h HL' 0 = nth h HL 0.
+Proof.
+  intros parent cells base descs HL HL' U' h H Hh.
+  assert (G : forall ds HL0 HL1 U1, capture_g HL0 parent cells base ds = (HL1, U1) -> exists ext, HL1 = (HL0 ++ ext)%list).
+  { induction ds as [|[b i] r IH]; intros HL0 HL1 U1 H0; cbn [capture_g] in H0.
+    - injection H0 as <- <-. exists []. now rewrite app_nil_r.
+    - destruct b.
+      + cbv zeta in H0. destruct (index_of (nth (base + i) cells 0) HL0).
+        * destruct (capture_g HL0 parent cells base r) as [HL2 ix] eqn:Ec. injection H0 as <- <-. eapply IH; eauto.
+        * destruct (capture_g (HL0 ++ [nth (base + i) cells 0]) parent cells base r) as [HL2 ix] eqn:Ec. injection H0 as <- <-.
+          destruct (IH _ _ _ Ec) as [ext ->]. exists (nth (base + i) cells 0 :: ext). now rewrite <- app_assoc.
+      + destruct (capture_g HL0 parent cells base r) as [HL2 ix] eqn:Ec. injection H0 as <- <-. eapply IH; eauto. }
+  destruct (G _ _ _ _ H) as [ext ->]. now apply app_nth1.
+Qed.
+
 (* the handles already there keep their index *)
 Lemma capture_cells_keeps : forall cs HL HL' U' h, capture_cells HL cs = (HL', U') ->
   h < List.length HL -> nth h HL' 0 = nth h HL 0.
@@ -607,6 +665,37 @@ Proof.
       exists m'. split; [rewrite Em, <- app_assoc; reflexivity|].
       destruct X as (X1 & X2 & X3 & X4).
       apply (proj1 (eff_trans m m1 m' CL _ CL HL1 _ _ (conj X1 (conj X2 (conj X3 X4))) X')); congruence.
+Qed.
+
+(* closure_impl with descriptors of both kinds *)
+Lemma capture_all_g : forall descs (m : cmach) CL HL base parent acc HL' U',
+  SOK2 m CL HL ->
+  Forall (fun d : bool * nat => fst d = true -> base + snd d < List.length CL) descs ->
+  capture_g HL parent CL base descs = (HL', U') ->
+  exists m', capture_all bk_c m base parent descs acc = (m', (acc ++ U')%list) /\
+             eff m m' CL HL' (cv m) (cn m).
+Proof.
+  induction descs as [|[b i] r IH]; intros m CL HL base parent acc HL' U' S HF Hcc.
+  - cbn in Hcc. injection Hcc as <- <-. exists m. rewrite app_nil_r. split; [reflexivity|now apply eff_refl].
+  - inversion HF as [|? ? Hi HF']; subst. cbn [fst snd] in Hi. cbn [capture_g] in Hcc. cbn [capture_all]. destruct b.
+    + specialize (Hi eq_refl). cbv zeta in Hcc.
+      destruct (capture2 m CL HL (base + i) S Hi) as (m1 & k & U & P). rewrite U.
+      destruct (index_of (nth (base + i) CL 0) HL) as [h|].
+      * destruct P as (-> & Hh & X).
+        destruct (capture_g HL parent CL base r) as [HL1 ix] eqn:Ec. injection Hcc as <- <-.
+        destruct (IH m1 CL HL base parent (acc ++ [h])%list HL1 ix (proj1 X) HF' Ec) as (m' & Em & X').
+        exists m'. split; [rewrite Em, <- app_assoc; reflexivity|].
+        destruct X as (X1 & X2 & X3 & X4).
+        apply (proj1 (eff_trans m m1 m' CL HL CL HL1 _ _ (conj X1 (conj X2 (conj X3 X4))) X')); congruence.
+      * destruct P as (-> & X).
+        destruct (capture_g (HL ++ [nth (base + i) CL 0]) parent CL base r) as [HL1 ix] eqn:Ec. injection Hcc as <- <-.
+        destruct (IH m1 CL _ base parent (acc ++ [List.length HL])%list HL1 ix (proj1 X) HF' Ec) as (m' & Em & X').
+        exists m'. split; [rewrite Em, <- app_assoc; reflexivity|].
+        destruct X as (X1 & X2 & X3 & X4).
+        apply (proj1 (eff_trans m m1 m' CL _ CL HL1 _ _ (conj X1 (conj X2 (conj X3 X4))) X')); congruence.
+    + destruct (capture_g HL parent CL base r) as [HL1 ix] eqn:Ec. injection Hcc as <- <-.
+      destruct (IH m CL HL base parent (acc ++ [nth i parent 0])%list HL1 ix S HF' Ec) as (m' & Em & X').
+      exists m'. split; [rewrite Em, <- app_assoc; reflexivity|exact X'].
 Qed.
 
 (* ------------------------------------------------------------------------------------------ *)
@@ -1037,6 +1126,60 @@ Proof.
   - open_step2 S0 F Hf. cbn [isize]. fold pcn. rewrite Ecap. reflexivity.
   - rewrite V3, V2, cv_set_pc, cn_set_pc in V4. rewrite N3, N2, cn_set_pc in N4. rewrite cn_set_pc in H4.
     split; [exact H4|]. split; [exact V4|]. split; [|exact N4].
+    intros j. rewrite V4. apply upd_upd_same.
+Qed.
+
+(* the same, with the descriptors ranging over the slots INCLUDING the one the new closure is pushed into (a local
+   function that captures itself: `fn f() { .. f() .. }` in a block) *)
+Lemma step2_closure_g : forall m fn ups pc base frs CL HL G O fnc descs HL' U',
+  MS2 m fn ups pc base frs CL HL G O -> fetch (code_of funs fn) pc = Some (IClosure fnc descs) ->
+  Forall (fun d : bool * nat => fst d = true /\ base + snd d < List.length (CL ++ [cn m])%list) descs ->
+  capture_cells HL (map (fun d : bool * nat => nth (base + snd d) (CL ++ [cn m])%list 0) descs) = (HL', U') ->
+  exists m', mstep cf funs m = MRun m' /\
+    MS2 m' fn ups (pc + 3 + 2 * List.length descs) base frs (CL ++ [cn m])%list HL' G O /\
+    (forall j, cv m' j = upd (cv m) (cn m) (MClo fnc U') j) /\
+    cn m' = S (cn m).
+Proof.
+  intros m fn ups pc base frs CL HL G O fnc descs HL' U' H Hf HF Hcc. start2 H S0 F.
+  replace (pc + 3 + 2 * List.length descs) with (pc + (3 + 2 * List.length descs)) by lia.
+  set (pcn := pc + (3 + 2 * List.length descs)).
+  pose proof (set_pc_MS2 _ _ _ _ _ _ _ _ _ _ pcn H) as H1. start2 H1 S1 F1.
+  destruct (MS2_eff _ _ _ _ _ _ _ _ _ _ _ _ _ _ _ H1 (mpush2 _ _ _ (MClo fnc []) S1)) as (H2 & V2 & N2). start2 H2 S2 F2.
+  rewrite <- (cn_set_pc m pcn) in HF, Hcc.
+  destruct (capture_all2 descs _ _ _ base ups [] HL' U' S2 HF Hcc) as (m2 & Ecap & X).
+  destruct (MS2_eff _ _ _ _ _ _ _ _ _ _ _ _ _ _ _ H2 X) as (H3 & V3 & N3). start2 H3 S3 F3.
+  destruct (MS2_eff _ _ _ _ _ _ _ _ _ _ _ _ _ _ _ H3 (mpoke2 _ _ _ _ (MClo fnc U') S3)) as (H4 & V4 & N4).
+  exists (mpoke m2 0 (MClo fnc U')). split.
+  - open_step2 S0 F Hf. cbn [isize]. fold pcn. rewrite Ecap. reflexivity.
+  - rewrite V3, V2, cv_set_pc, cn_set_pc in V4. rewrite N3, N2, cn_set_pc in N4. rewrite cn_set_pc in H4.
+    split; [exact H4|]. split; [|exact N4].
+    intros j. rewrite V4. apply upd_upd_same.
+Qed.
+
+(* Closure with descriptors of both kinds (locals of the running frame, slot of the new closure included, and
+   upvalues of the running closure) *)
+Lemma step2_closure_n : forall m fn ups pc base frs CL HL G O fnc descs HL' U',
+  MS2 m fn ups pc base frs CL HL G O -> fetch (code_of funs fn) pc = Some (IClosure fnc descs) ->
+  Forall (fun d : bool * nat => fst d = true -> base + snd d < List.length (CL ++ [cn m])%list) descs ->
+  capture_g HL ups (CL ++ [cn m])%list base descs = (HL', U') ->
+  exists m', mstep cf funs m = MRun m' /\
+    MS2 m' fn ups (pc + 3 + 2 * List.length descs) base frs (CL ++ [cn m])%list HL' G O /\
+    (forall j, cv m' j = upd (cv m) (cn m) (MClo fnc U') j) /\
+    cn m' = S (cn m).
+Proof.
+  intros m fn ups pc base frs CL HL G O fnc descs HL' U' H Hf HF Hcc. start2 H S0 F.
+  replace (pc + 3 + 2 * List.length descs) with (pc + (3 + 2 * List.length descs)) by lia.
+  set (pcn := pc + (3 + 2 * List.length descs)).
+  pose proof (set_pc_MS2 _ _ _ _ _ _ _ _ _ _ pcn H) as H1. start2 H1 S1 F1.
+  destruct (MS2_eff _ _ _ _ _ _ _ _ _ _ _ _ _ _ _ H1 (mpush2 _ _ _ (MClo fnc []) S1)) as (H2 & V2 & N2). start2 H2 S2 F2.
+  rewrite <- (cn_set_pc m pcn) in HF, Hcc.
+  destruct (capture_all_g descs _ _ _ base ups [] HL' U' S2 HF Hcc) as (m2 & Ecap & X).
+  destruct (MS2_eff _ _ _ _ _ _ _ _ _ _ _ _ _ _ _ H2 X) as (H3 & V3 & N3). start2 H3 S3 F3.
+  destruct (MS2_eff _ _ _ _ _ _ _ _ _ _ _ _ _ _ _ H3 (mpoke2 _ _ _ _ (MClo fnc U') S3)) as (H4 & V4 & N4).
+  exists (mpoke m2 0 (MClo fnc U')). split.
+  - open_step2 S0 F Hf. cbn [isize]. fold pcn. rewrite Ecap. reflexivity.
+  - rewrite V3, V2, cv_set_pc, cn_set_pc in V4. rewrite N3, N2, cn_set_pc in N4. rewrite cn_set_pc in H4.
+    split; [exact H4|]. split; [|exact N4].
     intros j. rewrite V4. apply upd_upd_same.
 Qed.
 
